@@ -284,7 +284,7 @@ func init() {
 			famHist(c, defaultCfg, 25000*c.Scale, 6, "s", false, apiFields, "setters", vsSpec)
 			famEdgeHist(c, defaultCfg, apiFields, "edge-pairs", false, vsSpec)
 		},
-		rule: "the 247 WPT setter vectors (implementation and model against the expected values) + generated setter histories (1-6 setters) + all single and all pairs of 67 edge setter calls on 39 start URLs; after every step the implementation is compared with the Coq model and with the extracted Spec transcription of the standard's setter steps on the ten API getters",
+		rule: "the 247 WPT setter vectors (implementation and model against the expected values) + generated setter histories (1-6 setters) + all single and all pairs of 67 edge setter calls, and every setter called with its own getter's current value (alone and after every edge call), on 60 start URLs (41 parsed, 19 obtained by resolving a reference); after every step the implementation is compared with the Coq model and with the extracted Spec transcription of the standard's setter steps on the ten API getters",
 	}
 
 	props["C12"] = &propDef{
